@@ -116,7 +116,7 @@ let rec s_node = function
 and s_root l cs root =
   Printf.sprintf "R %d %d %s" (int_of_n l) (int_of_n cs) (match root with Some n -> "1 " ^ s_node n | None -> "0")
 
-let berrname = function BE_INTERNAL -> "INTERNAL" | BE_PARSE e -> errname e
+let berrname = function BE_INTERNAL -> "INTERNAL" | BE_NOT_ENOUGH_MEMORY -> "NOT_ENOUGH_MEMORY" | BE_PARSE e -> errname e
 
 let () =
   try while true do
